@@ -266,6 +266,12 @@ impl Request {
 
         while r.consume("\r\n").is_none() {
             let key_bytes = r.read_while(|b| b != &b':');
+            /* a field name is a token (RFC 9110 5.1): not empty, no separator, no control byte.
+               Otherwise `Name:value`, a folded line or a line without `: ` is taken for (a part of) a name */
+            (!key_bytes.is_empty() && key_bytes.iter().all(|b| matches!(b,
+                | b'!' | b'#'..=b'\'' | b'*' | b'+' | b'-' | b'.' | b'^'..=b'z' | b'|' | b'~'
+                | b'0'..=b'9' | b'A'..=b'Z'
+            ))).then_some(()).ok_or_else(Response::BadRequest)?;
             r.consume(": ").ok_or_else(Response::BadRequest)?;
             let value = r.read_while(|b| b != &b'\r');
             /* header names and values are seen as `str` */
